@@ -3,8 +3,9 @@ from ..core import gz, glist
 
 ID = "C19"
 PROPS = ["theories/Props/C19.vo"]
-PINNED = ["C19_holds_outside", "C19_no_abort", "C19_limit_current", "C19_oracle_sound",
-          "C19_fresh_socket_unlimited", "C19_refuted_setsockopt_negative_sec_aborts"]
+PINNED = ["C19_holds", "C19_no_abort", "C19_limit_current", "C19_oracle_sound",
+          "C19_fresh_socket_unlimited", "C19_negative_sec_refuted_before_repair",
+          "C19_negative_sec_times_out_at_once", "C19_limit_on_closed_fd_refuted_before_repair"]
 CASES_MODULE = "Cases.C19"
 HEADER = "From OCV Require Import Syscall.SockOpt Syscall.SockOptOracle."
 AREA = "sockopt"
@@ -14,18 +15,26 @@ LEVEL = "proof"
 SHRINK_KEY = "ops"
 RULE = ("histories of Socket | SetOpt fd which tv | Limit fd dir | KGet fd which | Close fd (3-14 ops, up to 4 "
         "descriptors, one child process each) built from patterns: set after I/O, set twice, both directions, "
-        "close then reuse of the number, zero = unlimited, saturating seconds, plus a malformed stream (EDOM "
-        "values, dead descriptors, negative tv_sec); non-trivial = the model's run overwrote a cache entry, "
-        "evicted one at close, saturated, or a descriptor number was handed out twice; distinct = distinct op list")
+        "close then reuse of the number, zero = unlimited, saturating seconds, negative tv_sec (zero timeout) "
+        "followed by lookups and resets, lookups on closed descriptor numbers, plus a stream of rejected calls "
+        "(EDOM values, setsockopt/close/getsockopt on dead descriptors); non-trivial = the model's run overwrote a "
+        "cache entry, evicted one at close, saturated, cached a zero timeout, or a descriptor number was handed out "
+        "twice; distinct = distinct op list")
 TRUSTED = ["kernel socket option table modelled (lowest-free descriptor numbers, SO_xxxTIMEO stored as given for "
-           "tick-exact values, negative tv_sec stored as 0, out-of-range tv_usec rejected); validated by raw "
+           "tick-exact values, negative tv_sec stored as a zero timeout that reads back as (0, 0), out-of-range "
+           "tv_usec rejected); validated by raw "
            "getsockopt observations (KGet) in every run",
            "harness canonicalises descriptor numbers as (real fd - lowest free fd after runtime init)"]
 ASSUMPTIONS = ["option values are whole multiples of 20 ms (exact in kernel ticks for HZ 100/250/300/1000) and "
                "tv_sec < 2^50, so the value read back equals the value set; for other values the cache holds "
                "the caller's value while the kernel rounds up to its tick (sub-tick difference, outside the model)",
                "hooked I/O is represented by recv_time_limit / send_time_limit, the call every hooked I/O loop "
-               "makes to obtain its limit; I/O on a dead descriptor is outside the statement",
+               "makes to obtain its limit; that the loops, given the limit of a zero timeout (1 ns), make one "
+               "attempt and return -1/EAGAIN at the first would-block is covered by the C16/C18 theorems (all "
+               "limits >= 1) and was observed once on real sockets, not by this harness",
+               "a zero timeout is known only through the hooked setsockopt: getsockopt reports it as (0, 0), so a "
+               "socket whose negative timeout was set before its first hooked use, without the hook, is read as "
+               "unlimited (outside the model: every SetOpt is the hooked one)",
                "single caller thread (the caches are DashMaps; concurrent first use is not modelled)"]
 
 TICK = 20000
@@ -52,8 +61,10 @@ class Hist:
     def tv(self):
         r = self.rng
         k = r.random()
-        if k < 0.15:
+        if k < 0.12:
             return 0, 0
+        if k < 0.20:    # negative tv_sec: Linux stores a zero timeout
+            return r.choice([-1, -7, -2**63]), r.choice(USECS)
         if k < 0.55:
             return r.choice(SECS), r.choice(USECS)
         if k < 0.8:
@@ -89,8 +100,10 @@ class Hist:
             self.socket()
         elif k < 0.45:
             self.setopt(self.any_live())
-        elif k < 0.80:
+        elif k < 0.76:
             self.limit(self.any_live())
+        elif k < 0.80:  # a lookup on a descriptor number that is not open
+            self.limit(r.choice(self.dead) if self.dead and r.random() < 0.7 else 9)
         elif k < 0.88:
             self.kget(self.any_live())
         else:
@@ -99,8 +112,25 @@ class Hist:
 
 def pattern(rng):
     h = Hist(rng)
-    k = rng.randrange(6)
-    if k == 0:      # set after I/O (finding #21)
+    k = rng.randrange(7)
+    if k == 6:      # zero timeout: negative tv_sec, lookups, reset, close and reuse
+        fd = h.socket()
+        w = rng.choice(WHICH)
+        if rng.random() < 0.5:
+            h.limit(fd, w)
+        h.setopt(fd, w, (rng.choice([-1, -7, -2**63]), rng.choice(USECS)))
+        h.limit(fd, w)
+        h.limit(fd, "snd" if w == "rcv" else "rcv")
+        h.kget(fd, w)
+        if rng.random() < 0.5:
+            h.setopt(fd, w)
+            h.limit(fd, w)
+        else:
+            h.close(fd)
+            h.limit(fd, w)
+            n = h.socket()
+            h.limit(n, w)
+    elif k == 0:      # set after I/O (finding #21)
         fd = h.socket()
         w = rng.choice(WHICH)
         h.limit(fd, w)
@@ -166,13 +196,16 @@ def malformed(rng):
         h.close(fd)
         h.kget(fd)
         h.limit(h.any_live())
-    elif k == 2:    # I/O on a dead descriptor (outside the statement; the real code aborts)
+    elif k == 2:    # a lookup on a dead descriptor: "no limit", nothing cached
         fd = 9
         h.limit(fd)
-    else:           # negative tv_sec: accepted by the kernel (recorded finding)
+        h.limit(fd, "snd")
+    else:           # negative tv_sec: accepted by the kernel, zero timeout
         fd = h.any_live()
-        h.setopt(fd, tv=(rng.choice([-1, -7, -2**63]), rng.choice(USECS)))
-        h.limit(fd)
+        w = rng.choice(WHICH)
+        h.setopt(fd, w, tv=(rng.choice([-1, -7, -2**63]), rng.choice(USECS)))
+        h.limit(fd, w)
+        h.kget(fd, w)
     return h
 
 
@@ -258,7 +291,7 @@ def _reused(obs):
 
 def nontrivial(case, obs, verdict):
     t = set(verdict["tags"])
-    return bool(t & {"overwrite", "evict", "saturate"}) or _reused(obs)
+    return bool(t & {"overwrite", "evict", "saturate", "negative_sec"}) or _reused(obs)
 
 
 def distribution(results):
@@ -285,14 +318,16 @@ def distribution(results):
 LEVEL_TEXT = ("Unbounded theorems (all histories of socket creation, SO_RCVTIMEO/SO_SNDTIMEO setting, limit lookups as "
               "hooked I/O performs them, close and descriptor-number reuse) about a Gallina transcription of the two "
               "time-limit caches, the setsockopt hook and the close hook over a modelled kernel option table: the "
-              "limit handed out for a live socket always equals the limit of its current option (zero = unlimited), "
-              "a reused descriptor number inherits nothing, and no history aborts. Proved by an invariant (a cache "
-              "entry exists only for a live socket and equals get_time_limit of its option). The transcription is "
+              "limit handed out for a live socket always equals the limit of its current option (zero = unlimited; the "
+              "zero timeout Linux stores for a negative tv_sec = 1 ns, the least limit: time out at once), a reused "
+              "descriptor number inherits nothing, a lookup on a dead descriptor answers no limit, and no history "
+              "aborts. Proved by an invariant (a cache entry exists only for a live socket and equals the limit of its "
+              "option; a zero timeout, which getsockopt cannot tell from no timeout, is always cached). The two "
+              "repaired findings are refuted on the model of the code before each repair. The transcription is "
               "tied to the repository by running every generated history on real sockets through the crate's public "
               "setsockopt / close / recv_time_limit / send_time_limit, one child process per history, and comparing "
               "inside Coq.")
 LEVEL_NOTE = ("Trusted: Coq kernel + vm_compute; the hand transcription and the modelled kernel table (checked against raw "
-              "getsockopt in the runs); option values restricted to tick-exact ones; single caller thread. One input "
-              "class is still refuted on the real code and recorded as a finding (negative tv_sec aborts). "
+              "getsockopt in the runs); option values restricted to tick-exact ones; single caller thread. "
               "No axioms (Print Assumptions: closed under the global context).")
 TECHNIQUE = "machine-checked proof (Coq) about an executable model + differential correspondence on real sockets"
